@@ -32,6 +32,7 @@ void *verif_malloc(size_t size)
         pthread_mutex_unlock(&mu);
         return NULL;
     }
+    if (size > ((size_t) 1 << 46)) { pthread_mutex_unlock(&mu); return NULL; }   /* absurd request (e.g. negative count) */
     h = (hdr_t *) malloc(size + sizeof(hdr_t));
     if (!h) { pthread_mutex_unlock(&mu); return NULL; }
     h->id = id; h->size = size; h->magic = MAGIC;
